@@ -31,8 +31,11 @@ package config
 //@   ensures [C12:a_compiled_depth_limit_is_never_negative_and_the_policy_is_one_of_the_two] len(result1.Errors) == 0 ==> result0.MaxDepth >= 0 && (result0.DropPolicy == "reject" || result0.DropPolicy == "drop_oldest")
 //@ func compileQueueRetention
 //@   trusted
-//@ func compileSecrets
+//@ func parseTimestampValue
 //@   trusted
+//@ func compileSecrets
+//@   loop 1 invariant [every_compiled_secret_has_a_well_formed_window] out != nil && forall k string :: k in out ==> out[k].ID == k && k != "" && out[k].ValueRef != "" && (out[k].HasUntil ==> out[k].ValidUntil > out[k].ValidFrom) && (!out[k].HasUntil ==> out[k].ValidUntil == 0)
+//@   ensures [C17:a_compiled_secret_version_has_a_value_and_a_non_empty_validity_window] forall k string :: k in result0 ==> result0[k].ID == k && k != "" && result0[k].ValueRef != "" && (result0[k].HasUntil ==> result0[k].ValidUntil > result0[k].ValidFrom) && (!result0[k].HasUntil ==> result0[k].ValidUntil == 0)
 //@ func compileVars
 //@   trusted
 //@ func hasPathPrefix
